@@ -16,6 +16,7 @@ import (
 
 	"verif/harness/internal/stores"
 	"verif/harness/internal/vk"
+	"verif/harness/internal/watchdog"
 )
 
 type sev struct{ ID int }
@@ -35,17 +36,40 @@ func TestC13Stores(t *testing.T) {
 	kinds := []string{"memory", "sqlite-file", "sqlite-mem", "durable", "durable-chunk400"}
 	// publish kinds: D = context already ended, R = request-scoped (ends after the publish returned),
 	// P = plain Publish
-	alphabet := []string{"D", "R", "P"}
+	// (durable-streams only) X = the append request is answered 503 by a gateway and never reaches the
+	// server, Y = the server commits the append but its reply is lost (503)
+	alphabet := []string{"D", "R", "P", "X", "Y"}
 	maxLen := run.Scale(4, 6)
 	idx := 0
+	var cur string
+	dog := watchdog.Start(20*time.Second, func(v watchdog.Verdict) {
+		if !v.Deadlock {
+			run.Count("watchdog_slow_windows", 1)
+			return
+		}
+		run.Violation("persist:stores:publish-hung", "a publish never returned (goroutines parked below ebu frames): "+cur, map[string]any{"case": cur, "dump": v.Dump[:min(len(v.Dump), 20000)]})
+		run.Finish()
+		watchdog.Exit()
+	})
+	defer dog.Stop()
 	var rec func(seq []string)
 	runSeq := func(seq []string) {
+		httpFaults := strings.ContainsAny(strings.Join(seq, ""), "XY")
+		if httpFaults && len(seq) > run.Scale(3, 4) {
+			return
+		}
 		for _, kind := range kinds {
+			if httpFaults && !strings.HasPrefix(kind, "durable") {
+				continue
+			}
 			for _, timeout := range []bool{false, true} {
 				idx++
 				if !run.Mine(idx) {
 					continue
 				}
+				cur = fmt.Sprintf("store %s, publishes %s, persistence timeout %v", kind, strings.Join(seq, ""), timeout)
+				dog.Case(cur)
+				dog.Tick()
 				st, err := stores.Open(kind, scratch)
 				if err != nil {
 					t.Fatal(err)
@@ -72,6 +96,14 @@ func TestC13Stores(t *testing.T) {
 						ctx, cancel := context.WithCancel(context.Background())
 						ebu.PublishContext(bus, ctx, sev{ID: i + 1})
 						cancel()
+					case "X":
+						st.RejectNext(1)
+						ebu.Publish(bus, sev{ID: i + 1})
+						st.RejectNext(0)
+					case "Y":
+						st.LostAckNext(1)
+						ebu.Publish(bus, sev{ID: i + 1})
+						st.LostAckNext(0)
 					default:
 						ebu.Publish(bus, sev{ID: i + 1})
 					}
@@ -91,7 +123,7 @@ func TestC13Stores(t *testing.T) {
 					from = next
 				}
 				witness := map[string]any{"store": kind, "sequence": strings.Join(seq, ""), "persistence_timeout": timeout, "log": logIDs, "reported": reported}
-				desc := fmt.Sprintf("store %s, publishes %s (D: context already ended, R: request-scoped context, P: plain), persistence timeout set: %v: log %v, reported failures %v", kind, strings.Join(seq, ""), timeout, logIDs, reported)
+				desc := fmt.Sprintf("store %s, publishes %s (D: context already ended, R: request-scoped context, P: plain, X: append answered 503 by a gateway, Y: reply lost after the commit), persistence timeout set: %v: log %v, reported failures %v", kind, strings.Join(seq, ""), timeout, logIDs, reported)
 				inLog := map[int]int{}
 				for _, id := range logIDs {
 					inLog[id]++
@@ -105,6 +137,11 @@ func TestC13Stores(t *testing.T) {
 					switch {
 					case inLog[id] > 1:
 						run.Violation("persist:stores:written-more-than-once", desc, witness)
+					case k == "X" && (inLog[id] != 0 || rep[id] != 1):
+						run.Violation("persist:stores:rejected-append-retried-or-unreported", desc, witness)
+					case k == "Y" && (inLog[id] != 1 || rep[id] != 1):
+						run.Violation("persist:stores:lost-reply-append-duplicated-or-unreported", desc, witness)
+					case k == "X" || k == "Y":
 					case k != "D" && inLog[id] != 1:
 						run.Violation("persist:stores:live-publish-not-persisted", desc, witness)
 					case k != "D" && rep[id] != 0:
@@ -121,6 +158,7 @@ func TestC13Stores(t *testing.T) {
 				}
 				nD := strings.Count(strings.Join(seq, ""), "D")
 				if handled != len(seq)-nD {
+					// (X and Y publishes are delivered like any other: a persistence failure is contained)
 					// a publish whose context has ended reaches no handler (C08); every other one reaches it
 					run.Violation("persist:stores:handler-missed-event", fmt.Sprintf("%s; the handler ran %d times for %d live publishes", desc, handled, len(seq)-nD), witness)
 				}
